@@ -639,7 +639,24 @@ func (w *worker) eval(b *block, nodes []node, c callT) (out evalOut, err error) 
 		}
 	}
 
-	// trees; when exactly one side allowed the call the difference is implied
+	// State after EVERY call, allowed or refused: owner, group, mode, content,
+	// link count and existence of every entry of the configuration are those of
+	// the kernel after the same call (vd is always taken again; kd is the tree
+	// before when the kernel refused a single system call). Lesson: an errno can
+	// be right while the refused call has already stored part of its arguments
+	// (chown with two fields validated one after the other), so a refusal is
+	// judged by the state it leaves, never by the error alone.
+	//
+	// When exactly one side allowed the call the difference between the two
+	// trees is implied by the outcome violation above; what is still judged is
+	// that a call MemFS itself refused changed nothing on its side (the calls
+	// made of several steps, MkdirAll / RemoveAll, may stop half-way).
+	if rk.Kind == "ok" && rv.Kind != "ok" && rv.Kind != "PANIC" && rv.Kind != "DEADLOCK" && c.Op != "MkdirAll" && c.Op != "RemoveAll" && !equalLines(vd, w.pv) {
+		for _, d := range treeDiff(w.pv, vd, w.pv, nodes) {
+			out.viols = append(out.viols, viol{mk("tree", "refused-by-avfs-but-changed:"+d), strings.ReplaceAll(fsx.DiffLines(w.pv, vd), w.R, "R")})
+		}
+	}
+
 	if (rk.Kind == "ok") == (rv.Kind == "ok") && diffText != "" {
 		for _, d := range treeDiff(kd, vd, w.pk, nodes) {
 			// owner, group and mode of a created object are judged by the formula above
